@@ -71,12 +71,13 @@ type Collector struct {
 	events map[int][]json.RawMessage
 	class  map[int]string
 	req    map[int][]byte
+	hist   map[int][][]byte // what the same executor had run before (for history-aware reproduction)
 	next   int
 }
 
 // NewCollector returns an empty collector.
 func NewCollector() *Collector {
-	return &Collector{events: map[int][]json.RawMessage{}, class: map[int]string{}, req: map[int][]byte{}}
+	return &Collector{events: map[int][]json.RawMessage{}, class: map[int]string{}, req: map[int][]byte{}, hist: map[int][][]byte{}}
 }
 
 // Len is the number of traces collected.
@@ -158,6 +159,7 @@ func (r *Run) handle(f *Family, res Result, col *Collector) {
 		}
 		col.class[tid] = v.Class
 		col.req[tid] = res.Req
+		col.hist[tid] = res.Hist
 	}
 	if !v.OK && !v.Out {
 		r.Fail(Candidate{Family: f.Name, Class: v.Class, Sig: v.Sig, Case: json.RawMessage(jsonOrString(res.Req)), Detail: v.Detail, Hist: res.Hist})
@@ -299,6 +301,7 @@ func (r *Run) ValidateTrace(fam string, col *Collector, o TLCOpts) {
 			cj, _ := json.Marshal(cm)
 			r.Fail(Candidate{Family: fam, Class: col.class[tid], Sig: "trace-reject" + rejSuffix(lines, l) + rejReason(v),
 				Case:   cj,
+				Hist:   col.hist[tid],
 				Detail: fmt.Sprintf("the trace specification has no step for event %d of trace %d%s: %s", l, tid, why, det)})
 		}
 	}
@@ -432,8 +435,16 @@ func SubmitCollect(r *Run, fam string, kind byte, n int, col *Collector) {
 // candidate's request, then the request itself, in one fresh executor.
 func ReproduceWithHistory(c Candidate) (bool, string) {
 	var req string
+	wantEvents := ""
 	if err := json.Unmarshal(c.Case, &req); err != nil {
-		return false, "not a plain request"
+		var tr struct {
+			Req    string `json:"req"`
+			Events string `json:"events_sha1"`
+		}
+		if err := json.Unmarshal(c.Case, &tr); err != nil || tr.Events == "" || tr.Req == "" {
+			return false, "not a replayable request"
+		}
+		req, wantEvents = tr.Req, tr.Events
 	}
 	var last *Result
 	p := NewPool(c.Family, 1, func(res Result) { r := res; last = &r })
@@ -451,5 +462,10 @@ func ReproduceWithHistory(c Candidate) (bool, string) {
 	}
 	var v Verdict
 	json.Unmarshal(last.Resp, &v)
+	if wantEvents != "" {
+		// a rejected trace: after the same earlier requests the same events must come out again
+		h := sha1.Sum(mustJSON(v.Events))
+		return fmt.Sprintf("%x", h[:8]) == wantEvents, "regenerated trace differs also after the executor's earlier requests"
+	}
 	return v.Panic != "" || (!v.OK && !v.Out), v.Detail
 }
